@@ -61,6 +61,13 @@ func Run() bool {
 func launch(name string) {
 	cmd := exec.Command(os.Args[0])
 	cmd.Env = append(os.Environ(), envDaemonName+"="+name, envDaemonFlag+"=isDaemon")
+
+	// Listen before the daemon exists: its Done() may arrive at any time after
+	// Start(), and an unhandled SIGINT would kill the launcher.
+	interrupt := make(chan os.Signal, 1)
+	signal.Notify(interrupt, os.Interrupt)
+	defer signal.Stop(interrupt)
+
 	if err := cmd.Start(); err != nil {
 		os.Stderr.Write([]byte("start daemon: " + err.Error()))
 		return
@@ -76,9 +83,6 @@ func launch(name string) {
 		close(finished)
 	}()
 
-	interrupt := make(chan os.Signal, 1)
-	signal.Notify(interrupt, os.Interrupt)
-	defer signal.Stop(interrupt)
 	select {
 	case <-finished:
 	case <-interrupt:
